@@ -192,12 +192,14 @@ PROPS = {
                       "Also: the provided left_child/right_child, IterStackItem helpers, NoSharing, SwapChildren::as_dag_node + PostOrderIterItem::unswap "
                       "(right-to-left = mirror image), PreOrderIter::next (parent first, once per class, skipped entries already yielded).",
         "level_note": "Assumed (R5): the contracts of the two traits — DagLike (as_dag_node is a pure function of the node; the DAG is finite/acyclic) and "
-                      "SharingTracker (a table from sharing class to first index) — which the HashMap-based trackers InternalSharing / MaxSharing / EncodeSharing are "
-                      "NOT proved to meet (entry API); a ghost history field is added to PostOrderIter. Not decided: completeness (every reachable class is eventually "
+                      "SharingTracker (a table from sharing class to first index). NoSharing, InternalSharing and MaxSharing (for &Node) ARE proved to meet it "
+                      "(the entry-API match is rewritten to get/insert, R10; vstd's HashMap model; key-model axioms for PointerId / SharingId); EncodeSharing and the Arc/SwapChildren "
+                      "variants of MaxSharing are not. A ghost history field is added to PostOrderIter. Not decided: completeness (every reachable class is eventually "
                       "yielded), set equality of pre-order and post-order, is_shared_as, VerbosePreOrderIter.",
         "assumptions": [
             "DagLike implementors: as_dag_node deterministic; finite acyclic DAG (rank)",
-            "SharingTracker implementors obey the class-table contract (proved only for NoSharing)",
+            "SharingTracker implementors obey the class-table contract (proved for NoSharing, InternalSharing, MaxSharing<&Node>)",
+            "Hash/Eq of PointerId and of N::SharingId obey vstd's key model; PointerId::from is a function of the node reference",
             "fewer than 2^64 nodes yielded",
         ],
         "not_decided": ["completeness of the iteration", "pre-order/post-order set equality", "is_shared_as", "the HashMap trackers' bodies"],
